@@ -2,9 +2,9 @@
 //!
 //! The hot path reads the model through `bincode` into positional mirror structs (exact floats,
 //! ~0.3 us); `from_json` reads the same model *by field name* from `serde_json::to_value` (also
-//! exact: no text round trip). `selfcheck` (run once per process, and again for every sampled /
-//! replayed case) proves that both views agree, so a change of the struct layout cannot go
-//! unnoticed.
+//! exact: no text round trip). `cross_check` (run on the first model of every worker process and
+//! for every sampled / replayed case) proves that both views agree, so a change of the struct
+//! layout cannot go unnoticed.
 
 use serde::{Deserialize, Serialize};
 use serde_json::Value;
